@@ -587,9 +587,20 @@ size_t varintAdaptiveReadMeta(const uint8_t *src, varintAdaptiveMeta *meta) {
     }
 
     case VARINT_ADAPTIVE_PFOR: {
-        varintPFORReadMeta(data, &meta->encodingMeta.pforMeta);
-        meta->originalCount = meta->encodingMeta.pforMeta.count;
-        meta->encodedSize = varintPFORSize(&meta->encodingMeta.pforMeta) + 1;
+        varintPFORMeta *pforMeta = &meta->encodingMeta.pforMeta;
+        size_t pforHeader = varintPFORReadMeta(data, pforMeta);
+        meta->originalCount = pforMeta->count;
+        /* varintPFORSize() is an upper bound; walk the exception list to
+         * report the bytes the encoding really occupies */
+        const uint8_t *p =
+            data + pforHeader + (size_t)pforMeta->count * pforMeta->width;
+        uint64_t exceptionCount;
+        p += varintTaggedGet64(p, &exceptionCount);
+        for (uint64_t i = 0; i < exceptionCount; i++) {
+            p += varintTaggedGetLen(p); /* exception index */
+            p += varintTaggedGetLen(p); /* exception value */
+        }
+        meta->encodedSize = (size_t)(p - data) + 1;
         break;
     }
 
